@@ -32,6 +32,12 @@ inductive Steps (RA RB : List Nat) : Heap → Heap → Prop
   | write {h h' : Heap} (c : Nat) (new : List Nat) :
       Reach h RA c → (∀ x ∈ new, Storable h RA RB x) → Steps RA RB (write h c new) h' → Steps RA RB h h'
 
+/-- a sequence of mutations none of which touches an object reachable from `R` (at the time it happens) -/
+inductive WritesAvoid (R : List Nat) : Heap → Heap → Prop
+  | done (h : Heap) : WritesAvoid R h h
+  | write {h h' : Heap} (c : Nat) (new : List Nat) :
+      ¬ Reach h R c → WritesAvoid R (write h c new) h' → WritesAvoid R h h'
+
 /-! executable reachability for the driver: graph as an edge list, iterate to a fixed point -/
 
 def insertNat (n : Nat) : List Nat → List Nat
